@@ -31,6 +31,7 @@ type GenConfig struct {
 
 var keys = []string{"k1", "k2", "k3"}
 var strs = []string{"a", "bc", "def", "\U0001F600", "x"}
+var strs2 = []string{"e", "fg", "hij", "k"}
 
 func genEdit(r *rng.R, flavor string) Edit {
 	f := flavor
@@ -90,6 +91,29 @@ func genEdit(r *rng.R, flavor string) Edit {
 		default:
 			return Edit{K: "tsty", I: r.Intn(12), J: r.Range(1, 5), Key: []string{"b", "i"}[r.Intn(2)], S: []string{"1", "2"}[r.Intn(2)]}
 		}
+	case "tree", "treex":
+		// "tree": the structure-preserving domain (text inside one element, whole-element
+		// insert/delete, styles); "treex" adds merges across a boundary and splits
+		w := []int{5, 2, 3, 2, 2, 0, 0}
+		if f == "treex" {
+			w = []int{5, 2, 3, 2, 2, 2, 1}
+		}
+		switch r.Pick(w...) {
+		case 0:
+			return Edit{K: "xtxt", I: r.Intn(16), S: strs2[r.Intn(len(strs2))]}
+		case 1:
+			return Edit{K: "xelm", I: r.Intn(8), S: strs2[r.Intn(len(strs2))]}
+		case 2:
+			return Edit{K: "xdel", I: r.Intn(16), J: r.Intn(3), V: r.Intn(3)}
+		case 3:
+			return Edit{K: "xsty", I: r.Intn(8), J: r.Intn(8), Key: []string{"b", "i"}[r.Intn(2)], S: []string{"1", "2"}[r.Intn(2)]}
+		case 4:
+			return Edit{K: "xuns", I: r.Intn(8), J: r.Intn(8), Key: []string{"b", "i"}[r.Intn(2)]}
+		case 5:
+			return Edit{K: "xmrg", I: r.Intn(4)}
+		default:
+			return Edit{K: "xspl", I: r.Intn(16)}
+		}
 	case "counter":
 		if r.Bool() {
 			return Edit{K: "cinc", V: r.Range(-5, 20)}
@@ -109,6 +133,8 @@ func setupFor(flavor string) string {
 		return "t"
 	case "counter":
 		return "cn"
+	case "tree", "treex":
+		return "x"
 	}
 	return "oatcn"
 }
@@ -225,3 +251,6 @@ func Generate(r *rng.R, g GenConfig) *History {
 	}
 	return h
 }
+
+// GenEdit draws one edit of the given flavor.
+func GenEdit(r *rng.R, flavor string) Edit { return genEdit(r, flavor) }
